@@ -122,10 +122,39 @@ def gen_pairs(ctx):
         d = dict(cfg)
         pairs.append(('scale', {'econ': int(d['Economic Model']), 'enduse': eu, 'plant': pl, 'life': int(d['Plant Lifetime']), 'k': str(k),
                                 'redrilling': True, 'C': C, 'O': O, 'rate': r}, with_(cfg, costs(1)), with_(cfg, costs(k))))
-    for _ in range(ctx.n(6, 60)):    # zero add-on (needs one construction year: the add-on report writer)
+    # efficiency halved with the costs left to the correlations: nothing on the cost side may depend on the end-use efficiency
+    # (the O&M labour correlation switches form at 12.5 MWth of EXTRACTED heat; the bases put the peak between 12.5 and 25 MWth)
+    for econm in (1, 2, 3):
+        for flow in ((35, 55) if ctx.quick else (32, 35, 40, 45, 50, 55, 58)):
+            cfg = [(k2, v) for k2, v in base_config(rnd, enduse=2, plant=9, econ=econm, resmodel=4, life=rnd.choice([5, 10, 20]), nseg=1)
+                   if k2 not in ('Number of Production Wells', 'Number of Injection Wells', 'Production Flow Rate per Well', 'Gradient 1',
+                                 'Reservoir Depth', 'Injection Temperature', 'End-Use Efficiency Factor', 'Maximum Temperature')]
+            cfg += [('Number of Production Wells', '1'), ('Number of Injection Wells', '1'), ('Production Flow Rate per Well', str(flow)),
+                    ('Gradient 1', '50'), ('Reservoir Depth', '3'), ('Injection Temperature', '70'), ('Maximum Temperature', '400')]
+            d = dict(cfg)
+            desc = {'econ': econm, 'enduse': 2, 'plant': 9, 'life': int(d['Plant Lifetime']), 'eff': 1.0, 'costs': 'correlations', 'flow': flow}
+            pairs.append(('efficiency', desc, with_(cfg, [('End-Use Efficiency Factor', 1.0)]), with_(cfg, [('End-Use Efficiency Factor', 0.5)])))
+    # the product's own price raised with carbon accounting switched on (the revenue total is assembled a second time there)
+    for (eu, pl) in ((1, 1), (2, 9), (2, 5), (2, 6), (31, 2), (52, 1)):
+        for _ in range(ctx.n(1, 4)):
+            cfg = [(k2, v) for k2, v in base_config(rnd, enduse=eu, plant=pl, life=rnd.choice([3, 10, 20]), cy=rnd.choice([1, 2]))
+                   if 'Carbon' not in k2 and 'Sale Price' not in k2]
+            cfg += [('Do Carbon Price Calculations', 'True'), ('Starting Carbon Credit Value', configs.fmt(configs.dec(rnd, 0, 0.05, 3))),
+                    ('Ending Carbon Credit Value', configs.fmt(configs.dec(rnd, 0.05, 0.2, 3)))]
+            dlt = configs.dec(rnd, 0.005, 0.03, 3)
+            pa, pb = [], []
+            for prod, s0 in (('Electricity', 0.055), ('Heat', 0.025), ('Cooling', 0.025)):
+                pa += [(f'Starting {prod} Sale Price', s0), (f'Ending {prod} Sale Price', s0)]
+                pb += [(f'Starting {prod} Sale Price', round(s0 + float(dlt), 6)), (f'Ending {prod} Sale Price', round(s0 + float(dlt), 6))]
+            d = dict(cfg)
+            costs = [('Total Capital Cost', 80), ('Total O&M Cost', 3), ('Electricity Rate', 0.07)]
+            pairs.append(('price', {'econ': int(d['Economic Model']), 'enduse': eu, 'plant': pl, 'life': int(d['Plant Lifetime']), 'delta': dlt,
+                                    'carbon': True}, with_(cfg, costs + pa), with_(cfg, costs + pb)))
+    for j in range(ctx.n(6, 60)):    # zero add-on; with more than one construction year the add-on report writer of the pinned tree
+        # aborts after Calculate (finding of C09), so these pairs are judged on the post-Calculate snapshot
         eu = rnd.choice(configs.ENDUSES)
         pl = rnd.choice(configs.ELEC_PLANTS if eu != 2 else [9])
-        cfg = base_config(rnd, enduse=eu, plant=pl, cy=1)
+        cfg = base_config(rnd, enduse=eu, plant=pl, cy=(1, 2, 1, 3)[j % 4])
         extra = [('Total Capital Cost', 80), ('Total O&M Cost', 3), ('Electricity Rate', 0.07)]
         addon = [('AddOn Nickname 1', 'nothing'), ('AddOn CAPEX 1', 0), ('AddOn OPEX 1', 0), ('AddOn Electricity Gained 1', 0),
                  ('AddOn Heat Gained 1', 0), ('AddOn Profit Gained 1', 0)]
@@ -152,7 +181,8 @@ def check_pairs(ctx, pairs):
     tol = qconv.q(TOL)
     for i, (kind, desc, ta, tb) in enumerate(pairs):
         ra, rb = res[2 * i], res[2 * i + 1]
-        if not (ra['ok'] and rb['ok'] and ra['snap'] and rb['snap']):
+        addon_cy = kind == 'neutral' and desc.get('what') == 'zero add-on' and ra['ok'] and rb['snap'] is not None
+        if not (ra['ok'] and rb['ok'] and ra['snap'] and rb['snap']) and not addon_cy:
             if kind == 'neutral' and ra['ok'] and not rb['ok']:
                 # the neutral element must change nothing - in particular it must not make the run fail
                 ctx.count('run-pairs', evaluations=1, nontrivial_keys=[(kind, 'crash', desc.get('what'))])
@@ -200,6 +230,16 @@ def check_pairs(ctx, pairs):
         else:
             for n in oa:
                 ts.append((n + '-unchanged', f'Qeq_bool {econ.qx(oa[n])} {econ.qx(ob[n])}'))
+            if desc.get('what') == 'zero add-on' and rb['snap'].get('addeconomics'):
+                # the project "including add-ons" is the project: its capital, O&M and (where the add-on cash flow counts every
+                # revenue of the base, i.e. electricity and heat sales only) its NPV are those of the run without the add-on
+                av = lambda n: Bn.s.v('addeconomics', n)
+                ts.append(('project-capex-incl-addons', f'close {tol} {q(oa["CCap"])} {q(av("AdjustedProjectCAPEX"))}'))
+                ts.append(('project-opex-incl-addons', f'close {tol} {q(oa["Coam"])} {q(av("AdjustedProjectOPEX"))}'))
+                carbon = any(x != 0 for x in (A.series('economics', 'CarbonRevenue') or [0]))
+                cooling = any(x != 0 for x in (A.series('economics', 'CoolingRevenue') or [0]))
+                if not carbon and not cooling and econ.finite([av('ProjectNPV')]):
+                    ts.append(('project-npv-incl-addons', f'close {qconv.q(1e-7)} {q(oa["NPV"])} {q(av("ProjectNPV"))}'))
         for name, t in ts:
             terms.append(t)
             owners.append((kind, name, desc, ta, tb, oa, ob))
